@@ -604,10 +604,11 @@ def stage(seed, tier):
     with ThreadPoolExecutor(max_workers=8) as ex:
         recs = list(ex.map(lambda c: run_case(mod, c[0], c[1], wire, kessoku), cases))
     bad = invalid_inputs(mod, kessoku)
-    keep = os.path.join(vlib.CACHE, "stage", "W-src-%s-%s" % (seed, tier))
+    directed = directed_runs(key)
+    keep = os.path.join(vlib.CACHE, "stage", key + "-src")
     shutil.rmtree(keep, ignore_errors=True)
     shutil.copytree(mod, keep, ignore=shutil.ignore_patterns("drv"))
-    res = dict(records=recs, invalid=bad, srcdir=keep)
+    res = dict(records=recs, invalid=bad, srcdir=keep, directed=directed)
     os.makedirs(os.path.dirname(cpath), exist_ok=True)
     json.dump(res, open(cpath, "w"))
     return res
@@ -688,6 +689,108 @@ def known_runs():
             rck, ok, ek = vlib.run(["go", "run", "."], cwd=kdir, env=env, timeout=300)
             out[kid] = dict(reproduced=(ew.strip() != ek.strip()), detail="wire's injector yields %r, the migrated injector yields %r" % (ew.strip()[-40:], ek.strip()[-40:]))
     return out
+
+
+# ------------------------------------------------------------------ directed valid configurations (hand-written shapes the
+# random generator does not produce); wire's injector and the migrated injector must agree on signature and output
+
+DIRECTED = {
+    # FieldsOf on two structs with the SAME type name from different packages, in one Build list
+    "fieldsof_same_type_name": {
+        "store/store.go": 'package store\n\ntype Timeout int\ntype DSN string\ntype Config struct {\n\tDSN     DSN\n\tTimeout Timeout\n}\n\nfunc NewConfig() *Config { return &Config{DSN: "pg", Timeout: 1} }\n',
+        "web/web.go": 'package web\n\ntype Timeout int\ntype Addr string\ntype Config struct {\n\tAddr    Addr\n\tTimeout Timeout\n}\n\nfunc NewConfig() *Config { return &Config{Addr: ":80", Timeout: 30} }\n',
+        "t.go": 'package main\n\nimport (\n\t"fmt"\n\n\t"vscratch/NAME/store"\n\t"vscratch/NAME/web"\n)\n\ntype Server struct{ S string }\n\nfunc NewServer(d store.DSN, st store.Timeout, a web.Addr, wt web.Timeout) *Server {\n\treturn &Server{S: fmt.Sprint(d, st, a, wt)}\n}\n',
+        "main.go": 'package main\n\nfunc main() { println(InitServer().S) }\n',
+        "wire.go": '//go:build wireinject\n\npackage main\n\nimport (\n\t"github.com/google/wire"\n\n\t"vscratch/NAME/store"\n\t"vscratch/NAME/web"\n)\n\nfunc InitServer() *Server {\n\twire.Build(store.NewConfig, web.NewConfig,\n\t\twire.FieldsOf(new(*store.Config), "DSN", "Timeout"),\n\t\twire.FieldsOf(new(*web.Config), "Addr", "Timeout"),\n\t\tNewServer)\n\treturn nil\n}\n'},
+    # the same with equal field types behind distinct field names is a wire error; equal field NAMES selecting different values:
+    "fieldsof_same_field_name": {
+        "store/store.go": 'package store\n\ntype Limit int\ntype Config struct{ Max Limit }\n\nfunc NewConfig() *Config { return &Config{Max: 1} }\n',
+        "web/web.go": 'package web\n\ntype Limit int\ntype Config struct{ Max Limit }\n\nfunc NewConfig() *Config { return &Config{Max: 30} }\n',
+        "t.go": 'package main\n\nimport (\n\t"fmt"\n\n\t"vscratch/NAME/store"\n\t"vscratch/NAME/web"\n)\n\ntype Server struct{ S string }\n\nfunc NewServer(a store.Limit, b web.Limit) *Server { return &Server{S: fmt.Sprint(a, b)} }\n',
+        "main.go": 'package main\n\nfunc main() { println(InitServer().S) }\n',
+        "wire.go": '//go:build wireinject\n\npackage main\n\nimport (\n\t"github.com/google/wire"\n\n\t"vscratch/NAME/store"\n\t"vscratch/NAME/web"\n)\n\nvar StoreSet = wire.NewSet(store.NewConfig, wire.FieldsOf(new(*store.Config), "Max"))\n\nfunc InitServer() *Server {\n\twire.Build(StoreSet, web.NewConfig, wire.FieldsOf(new(*web.Config), "Max"), NewServer)\n\treturn nil\n}\n'},
+    # a value expression that selects THROUGH a variable of another package, which is referenced nowhere else
+    "value_nested_selector": {
+        "defaults/defaults.go": 'package defaults\n\ntype Name string\n\nvar Server = struct {\n\tName Name\n\tPort int\n}{Name: "srv", Port: 8080}\n',
+        "t.go": 'package main\n\nimport "vscratch/NAME/defaults"\n\ntype App struct{ S string }\n\nfunc NewApp(n defaults.Name) *App { return &App{S: string(n)} }\n',
+        "main.go": 'package main\n\nfunc main() { println(InitApp().S) }\n',
+        "wire.go": '//go:build wireinject\n\npackage main\n\nimport (\n\t"github.com/google/wire"\n\n\t"vscratch/NAME/defaults"\n)\n\nfunc InitApp() *App {\n\twire.Build(wire.Value(defaults.Server.Name), NewApp)\n\treturn nil\n}\n'},
+    "interface_value_nested_selector": {
+        "streams/streams.go": 'package streams\n\nimport "bytes"\n\nvar Std = struct{ Out *bytes.Buffer }{Out: bytes.NewBufferString("buf")}\n',
+        "t.go": 'package main\n\nimport "fmt"\n\ntype App struct{ S string }\n\nfunc NewApp(w fmt.Stringer) *App { return &App{S: w.String()} }\n',
+        "main.go": 'package main\n\nfunc main() { println(InitApp().S) }\n',
+        "wire.go": '//go:build wireinject\n\npackage main\n\nimport (\n\t"fmt"\n\n\t"github.com/google/wire"\n\n\t"vscratch/NAME/streams"\n)\n\nfunc InitApp() *App {\n\twire.Build(wire.InterfaceValue(new(fmt.Stringer), streams.Std.Out), NewApp)\n\treturn nil\n}\n'},
+}
+
+
+def directed_runs(key="WD-x"):
+    """Each directed configuration through real wire and through migrate + generate; returns records with problems
+    (prefixed "C14:" when they concern the migrated file itself: compilation, formatting, determinism)."""
+    kessoku = vlib.build_kessoku()
+    wire = os.path.join(vlib.BUILD, "wire")
+    mod = new_module("wd")
+    env = vlib.goenv()
+    recs = []
+    for cid, files in DIRECTED.items():
+        name = "d" + cid
+        rec = dict(name=cid, problems=[])
+        recs.append(rec)
+        for side in ("", "_k", "_k2"):
+            d = os.path.join(mod, name + side)
+            for fn, txt in files.items():
+                pth = os.path.join(d, fn)
+                os.makedirs(os.path.dirname(pth), exist_ok=True)
+                open(pth, "w").write(txt.replace("NAME", name + side))
+        wdir, kdir, kdir2 = os.path.join(mod, name), os.path.join(mod, name + "_k"), os.path.join(mod, name + "_k2")
+        rc, o, e = vlib.run([wire, "gen", "."], cwd=wdir, env=env, timeout=300)
+        if rc != 0:
+            rec["problems"].append("HARNESS: wire rejects the directed configuration: " + (o + e)[-300:])
+            continue
+        rcw, ow, ew = vlib.run(["go", "run", "."], cwd=wdir, env=env, timeout=300)
+        if rcw != 0:
+            rec["problems"].append("HARNESS: wire side does not run: " + ew[-300:])
+            continue
+        rc, o, e = vlib.run([kessoku, "migrate", "-o", "kessoku.go", "./"], cwd=kdir, env=env, timeout=300)
+        if rc != 0 or not os.path.exists(os.path.join(kdir, "kessoku.go")):
+            rec["problems"].append("wire accepts the configuration but migrate failed (rc=%d): %s" % (rc, e[-300:]))
+            continue
+        text1 = open(os.path.join(kdir, "kessoku.go")).read()
+        rec["kessoku_go"] = text1[:4000]
+        rc, o, e = vlib.run([kessoku, "migrate", "-o", "kessoku.go", "./"], cwd=kdir2, env=dict(env, GOMAXPROCS="1"), timeout=300)
+        if rc != 0 or open(os.path.join(kdir2, "kessoku.go")).read().replace(name + "_k2", name + "_k") != text1:
+            rec["problems"].append("C14: migrate output differs between two runs")
+        shutil.rmtree(kdir2, ignore_errors=True)
+        os.remove(os.path.join(kdir, "wire.go"))
+        rc, o, e = vlib.run(["gofmt", "-l", "kessoku.go"], cwd=kdir, env=env, timeout=60)
+        if rc != 0 or o.strip():
+            rec["problems"].append("C14: migrated file is not gofmt-stable: %s%s" % (o, e[-200:]))
+        rc, o, e = vlib.run(["go", "vet", "."], cwd=kdir, env=env, timeout=300)
+        if rc != 0 and "InitServer" not in (o + e) and "InitApp" not in (o + e):
+            rec["problems"].append("C14: migrated file does not compile in the source package: %s" % (o + e)[-400:])
+            continue
+        rc, o, e = vlib.run([kessoku, "kessoku.go"], cwd=kdir, env=env, timeout=300)
+        if rc != 0:
+            rec["problems"].append("kessoku refuses the migrated declarations: %s" % e[-400:])
+            continue
+        ws, ks = signatures(os.path.join(wdir, "wire_gen.go")), signatures(os.path.join(kdir, "kessoku_band.go"))
+        for inj in ws:
+            if inj not in ks:
+                rec["problems"].append("kessoku generated no injector %s" % inj)
+            elif sorted(ws[inj]["params"]) != sorted(ks[inj]["params"]):
+                rec["problems"].append("%s: argument types differ: wire %s, kessoku %s" % (inj, ws[inj]["params"], ks[inj]["params"]))
+        if rec["problems"]:
+            continue
+        rc, o, e = vlib.run(["go", "vet", "."], cwd=kdir, env=env, timeout=300)
+        if rc != 0:
+            rec["problems"].append("C14: migrated package does not compile: %s" % (o + e)[-400:])
+            continue
+        rck, ok, ek = vlib.run(["go", "run", "."], cwd=kdir, env=env, timeout=300)
+        if rck != 0 or ek.strip() != ew.strip():
+            rec["problems"].append("results differ: wire's injector yields %r, the migrated injector yields %r" % (ew.strip()[-60:], ek.strip()[-60:]))
+    keep = os.path.join(vlib.CACHE, "stage", key + "-dsrc")
+    shutil.rmtree(keep, ignore_errors=True)
+    shutil.copytree(mod, keep)
+    return dict(records=recs, srcdir=keep)
 
 
 # ------------------------------------------------------------------ Coq correspondence (coq/Wire.v)
